@@ -23,6 +23,7 @@ struct GenCfg {
     bool genericBoxes = true;  // allow non dyadic boxes
     bool autoBlock = true;     // allow automatic / environment block size
     bool twoGroupings = false; // C08
+    bool emptySets = false;    // one case in 40 has an empty particle set (target/source: either or both sides)
     bool histories = false;    // C12
     int historyOneIn = 1;      // with histories: a staged history for one case in N, a single full call otherwise
     bool lstops = false;       // generate upper working level 0..H
